@@ -31,4 +31,9 @@ def run(pid, cfg, results, seed):
         base_failed |= set(r['failed_clauses']) | set(r['failed_lemmas']) | set(r['body_fail'])
     unstable = sorted(set(x for u in stab for s in stab[u] for x in s['failed']) - base_failed)
     extra['unstable_under_other_seeds'] = unstable
+    # 3. A3: shim arithmetic contracts against the real libraries (testing an assumption, not proving it)
+    r = replaylib.search('shim_arith', seed + 3, 300000)
+    extra['shim_arith_conformance'] = dict(tries=r.get('tries'), disagreement=r.get('input') if r.get('found') else None, failed=r.get('failed'))
+    if r.get('found'):
+        rc = 2; lines.append('UNDECIDED: shim arithmetic contract disagrees with the library: %s %s' % (r.get('failed'), r.get('input')))
     return extra, rc, lines
